@@ -59,7 +59,7 @@ PROVED = {
          'emitted, for every wf_ctrl / wf_avp value: all 39 kinds and Hidden), C03_payload_roundtrip, C03_record_roundtrip (on the Spec).'),
  'C04': ('Theorems C04_data_roundtrip (for every option set) and C04_data_roundtrip_spec over wf_data: 16 flag combinations, length absent or exact, offset n <= |data|-1; the decoded '
          'value reports no offset and the payload without its first n octets.'),
- 'C11': ('Theorems C11_hide_reveal, C11_wire, C11_identity_on_other_variant for every hash with a 16-octet result, and their MD5 instances (Base/Md5.v): '
+ 'C11': ('Theorems C11_hide_reveal, C11_wire, C11_identity_on_other_variant, C11_hide_injective for every hash with a 16-octet result, and their MD5 instances (Base/Md5.v): '
          'the Model hide() then reveal() (and hide -> encode -> decode -> reveal) return the original AVP for every wf_avp value, secret, random vector and padding.'),
  'C12': ('Theorems C12_hide_is_rfc / C12_reveal_is_rfc (the in-place index loops of the Model equal the RFC 2661 4.3 block recursion of Spec/SpecHide.v, by loop invariants over the '
          'forward and the reverse loop), C12_hidden_length, C12_wire_form, C12_unused_padding_inert; MD5 instances. The md5 crate itself is modelled by Base/Md5.v '
